@@ -118,6 +118,9 @@ var TimerFrames = []string{
 // first goroutine that is not.
 func (s *Snapshot) Final() (ok bool, why string) {
 	for _, g := range s.Gs {
+		if g.Has("core.caseWatchdog") {
+			continue // the child's own per-case watchdog sleeps by design
+		}
 		durable := blocked[g.State]
 		if durable && g.State == "semacquire" {
 			// "semacquire" is also the state of a goroutine queueing on a
